@@ -26,6 +26,12 @@ static void runIsolated(const json &what, vt::Trace &tr, const std::function<voi
 {
     tr.flush();
     fflush(stdout);
+    if (getenv("VERIF_NOFORK"))
+    {
+        // debugging aid (gdb / sanitizers on one run): no isolation
+        body();
+        return;
+    }
     pid_t pid = fork();
     if (pid == 0)
     {
@@ -877,7 +883,8 @@ int main(int argc, char **argv)
                 // make the run identifiable if the process dies in it
                 json what{{"planner", rs.planner}, {"space", rs.space}, {"W", cs["W"]}, {"H", cs["H"]},
                           {"obst", cs["obst"]}, {"start", cs["start"]}, {"goal", cs["goal"]}, {"thr", rs.thr},
-                          {"range", rs.range}, {"budget", rs.budget}, {"seed", rs.seed}, {"idx", n - 1}};
+                          {"range", rs.range}, {"budget", rs.budget}, {"seed", rs.seed}, {"idx", n - 1},
+                          {"query", rs.query}, {"resFrac", (long)std::lround(rs.res * 1e6)}};
                 std::cout << "RUN " << (n - 1) << std::endl;
                 runIsolated(what, tr, [&] { tr.emit(runOne(reg, cs, rs)); }, 60, 900);
             }
